@@ -8229,6 +8229,10 @@ func (c *BytecodeCompiler) emitFloat(f value.Float, location *position.Location)
 	line := location.StartPos.Line
 	switch f {
 	case 0:
+		if math.Signbit(float64(f)) {
+			// -0.0 == 0.0, but FLOAT_0 pushes +0.0
+			break
+		}
 		c.emit(line, bytecode.FLOAT_0)
 		return
 	case 1:
